@@ -49,6 +49,34 @@ type MessageBigSmall struct {
 
 func (*MessageBigSmall) GetID() uint32 { return 77 } // shares its low byte / low 16 bits with others
 
+// ids at the edges of one byte and of two bytes: nothing may treat 255 / 256 / 65535 differently from their neighbours
+type MessageEdge254 struct{ A uint16 }
+
+func (*MessageEdge254) GetID() uint32 { return 254 }
+
+type MessageEdge255 struct {
+	A uint16
+	B uint8
+}
+
+func (*MessageEdge255) GetID() uint32 { return 255 }
+
+type MessageEdge256 struct{ A uint32 }
+
+func (*MessageEdge256) GetID() uint32 { return 256 }
+
+type MessageEdge65535 struct {
+	A uint8
+	S string `mavlen:"4"`
+}
+
+func (*MessageEdge65535) GetID() uint32 { return 65535 }
+
+type MessageEdgeZero struct{ A int32 }
+
+func (*MessageEdgeZero) GetID() uint32 { return 0 }
+
 var bigDialect = &dialect.Dialect{Version: 7, Messages: []message.Message{
 	&MessageBigA{}, &MessageBigB{}, &MessageBigC{}, &MessageBigD{}, &MessageBigSmall{},
+	&MessageEdge254{}, &MessageEdge255{}, &MessageEdge256{}, &MessageEdge65535{}, &MessageEdgeZero{},
 }}
